@@ -77,6 +77,18 @@ def _l4b_site_outside_contig(L: int, b: int, F: int, site: int, rs: int, re: int
     return S.check_fetch_complete(B.blacklisted_binning, L, b, F, site, rs, re) is None
 
 
+def _l0_contigs_with_reads(n: int, m0: int, u0: int, m1: int, u1: int, m2: int, u2: int, su: int, with_length: bool) -> bool:
+    """
+    pre: 0 <= n <= 3
+    pre: 0 <= m0 <= 2 and 0 <= u0 <= 2 and 0 <= m1 <= 2 and 0 <= u1 <= 2 and 0 <= m2 <= 2 and 0 <= u2 <= 2
+    pre: 0 <= su <= 2
+    post: _
+    """
+    # both parallel modes build their job list from get_contigs_with_reads: a contig that holds only unmapped, placed records must
+    # get a job as well (the serial pass writes those records)
+    return S.check_contigs_with_reads(n, [m0, m1, m2], [u0, u1, u2], su, with_length) is None
+
+
 def _l3_break(sa: int, ra: bool, sb: int, rb: bool, Fi: int, ci: int, same_cell: bool) -> bool:
     """
     pre: 0 <= sa <= 7 and 0 <= sb <= 5
@@ -141,6 +153,9 @@ LEMMAS = [
          cases={'quick': [dict(id='n%d' % n, pre=['n == %d' % n]) for n in (0, 1, 2, 3)]}),
     dict(name='L3_break_criterion', fn='_l3_break', engine='E1', timeout=_T, replay='replay.C08:replay_break',
          cases={'quick': [dict(id='F%d_c%d' % (f, c), pre=['Fi == %d' % f, 'ci == %d' % c]) for f in range(3) for c in range(3)]}),
+    dict(name='L0_contigs_with_reads', fn='_l0_contigs_with_reads', engine='E1', timeout=_T, replay='replay.C05:replay',
+         cases={'quick': [dict(id='n%d' % k, pre=['n == %d' % k] + ['m%d == 0' % i for i in range(k, 3)] + ['u%d == 0' % i for i in range(k, 3)]) for k in (0, 1, 2)] +
+                         [dict(id='n3_m%d_%s' % (m, 'len' if w else 'name'), pre=['n == 3', 'm0 == %d' % m, 'with_length == %s' % bool(w)]) for m in (0, 1, 2) for w in (0, 1)]}),
     dict(name='L4b_site_outside_contig', fn='_l4b_site_outside_contig', engine='E1', timeout=_T, replay='replay.C08:replay'),
     dict(name='L4_fetch_complete', fn='_l4_fetch_complete', engine='E1', timeout=_T, replay='replay.C08:replay',
          cases={'quick': [dict(id='L%d' % L, pre=['L == %d' % L]) for L in (1, 2, 3, 4, 5)],
@@ -149,7 +164,7 @@ LEMMAS = [
 ]
 
 PROPERTY = dict(
-    functions=['bamtagmultiome.tag_multiome_multi_processing region branch (AST cut)', 'tagging.generate_tasks', 'tagging.run_tagging_task', 'tagging.run_tagging_tasks (job bookkeeping: a job that wrote records keeps its output)',
+    functions=['bamFunctions.get_contigs_with_reads (the contig list both parallel modes start from)', 'bamtagmultiome.tag_multiome_multi_processing region branch (AST cut)', 'tagging.generate_tasks', 'tagging.run_tagging_task', 'tagging.run_tagging_tasks (job bookkeeping: a job that wrote records keeps its output)',
                'bamBinCounts.blacklisted_binning_contigs/blacklisted_binning', 'utils.binning.bp_chunked'],
     bounds={'quick': dict(tiling='2 contigs of length <=4 / <=2, bin <=5, bp_per_job <=7, fragment size unbounded',
                           filter='<=3 molecules in arbitrary iteration order, unbounded sites and windows, molecules without site, 2 contigs',
